@@ -84,17 +84,45 @@ def alphabet(keys, po):
     return mut, obs
 
 # ------------------------------------------------------------------ x: exhaustive enumeration
-def x_lines(cfg, keys, depth):
-    """all histories of 1..depth operations: for every d, prefixes of max(0, d-2) mutators, the rest expanded in-process"""
+LINES_MAX = 20000
+
+def inner_alphabet(keys, po):
+    """one representative per class of operations whose STATE transformer in the model (Model/MapM.v, step_do) is literally the
+    same function: e.g. remove / remove_entry / OccupiedEntry::remove(_entry) are all `m_remove po k`; or_insert / or_insert_with;
+    get_mut / and_modify / OccupiedEntry::get_mut; insert / OccupiedEntry::insert + VacantEntry::insert.  Used for the NON-final
+    positions of the reduced enumeration; the final position always draws from the full set, so every operation is still
+    executed in every state reachable by a shorter history (a first divergence between implementation and model is found
+    at the final position of some enumerated history)."""
+    mut = []
+    n = len(keys)
+    for k in keys:
+        mut += ['ins/%s/#' % k, 'rm/%s' % k, 'shr/%s' % k]
+        mut += ['sins/%d/%s/#' % (i, k) for i in range(n + 1)]
+        mut += ['gm/%s/W' % k, 'eoi/%s/#' % k, 'eamoi/%s/W/#' % k, 'ixm/%s/#' % k]
+    full, _ = alphabet(keys, True)
+    mut += [t for t in full if '/' not in t or t.split('/')[0] in ('ret', 'ext', 'app', 'fri', 'itm', 'vm')]
+    if not po:
+        mut = [t for t in mut if not po_only(t)]
+    assert all(t in full for t in mut)
+    return mut
+
+def x_lines(cfg, keys, depth, reduced=False):
+    """all histories of 1..depth operations: for every length d, every prefix of p operations (p as large as keeps the number of
+    lines below LINES_MAX), the remaining d-p operations expanded depth-first inside the harness / the model.
+    Non-final positions draw from `inner` (= all mutators, or their representatives when reduced), the final one from everything."""
     L = letters(cfg)
     mut, obs = alphabet(keys, L == 'p')
-    tail = ' | %s | %s' % (' '.join(mut), ' '.join(obs))
+    inner = inner_alphabet(keys, L == 'p') if reduced else mut
+    last = [t for t in mut if t not in inner] + obs
+    tail = ' | %s | %s' % (' '.join(inner), ' '.join(last))
     lines = []
     for d in range(1, depth + 1):
-        plen = max(0, d - 2)
-        for pre in itertools.product(mut, repeat=plen):
+        plen = 0
+        while plen + 1 <= d - 1 and len(inner) ** (plen + 1) <= LINES_MAX:
+            plen += 1
+        for pre in itertools.product(inner, repeat=plen):
             lines.append('x %s %d %s%s' % (L, d - plen, ' '.join(pre), tail))
-    return lines, mut, obs
+    return lines, inner, last
 
 def expand_x(line):
     """the h lines of every history an x line stands for"""
@@ -139,6 +167,8 @@ def judge_lines(ctx, cfg, inputs, aux=None):
                 v += direct_history(cfg, line, a, base)
         elif kind == 'eq':
             fa = a.split(' ')
+            if not ctx.quiet:
+                ctx.count('%s:eq-%s' % (cfg, 'equal' if fa[0] == 't' else 'different'))
             if a != m:
                 what = 'value-eq-disagrees' if a[:1] != m[:1] else 'hash-feed-disagrees'
                 v.append(dict(base, what=what, expected='model: ' + m[:3000], actual=a[:3000]))
@@ -470,14 +500,14 @@ def tally_x(ctx, lines, io):
     ctx.count('enumerated-history-nodes', nodes)
     return nodes
 
-def run_x(ctx, cfg, keys, depth, label):
-    lines, mut, obs = x_lines(cfg, keys, depth)
-    ctx.count('%s:%s:alphabet-mutators' % (label, cfg), len(mut))
-    ctx.count('%s:%s:alphabet-observers' % (label, cfg), len(obs))
+def run_x(ctx, cfg, keys, depth, label, reduced=False):
+    lines, mut, obs = x_lines(cfg, keys, depth, reduced)
+    ctx.count('%s:%s:alphabet-inner-positions' % (label, cfg), len(mut))
+    ctx.count('%s:%s:alphabet-final-position' % (label, cfg), len(mut) + len(obs))
     ctx.count('%s:%s:x-lines' % (label, cfg), len(lines))
     io, mo = both(ctx, cfg, lines, nchunks=16)
     nodes = tally_x(ctx, lines, io)
-    ctx.sample({'op': 'x', 'cfg': cfg, 'keys': keys, 'depth': depth, 'mutators': len(mut), 'observers': len(obs), 'nodes': nodes, 'example': lines[-1][:160]})
+    ctx.sample({'op': 'x', 'cfg': cfg, 'keys': keys, 'depth': depth, 'inner_alphabet': len(mut), 'final_alphabet': len(mut) + len(obs), 'reduced': reduced, 'nodes': nodes, 'example': lines[-1][:160]})
     bad = [l for l, a, m in zip(lines, io, mo) if split_extra(a)[0] != m or split_extra(a)[1].get('bad', '0') != '0']
     for l in bad[:3]:
         ctx.violations += judge_lines(ctx, cfg, [l.encode()])
@@ -486,25 +516,25 @@ def run_x(ctx, cfg, keys, depth, label):
 def run_c17(ctx):
     rng = ctx.rng
     quick = ctx.tier == 'quick'
-    ctx.rule = ('(1) ALL operation histories up to length 4 over the 3-key universe {"a","ab","b"} and the full operation set of serde_json::Map '
-                '(every public method and every path through the entry API, per key; removal flavours, shift_insert at every index incl. out of bounds, '
-                'append/extend/collect with duplicate keys, retain, sort_keys, iter_mut ...; pure observers at the last position), enumerated depth-first in the '
-                'harness and in the extracted model, compared by a position-sensitive checksum of every node\'s returned value and forward iteration '
-                '(thorough: also length 4 over 4 keys incl. the empty string, and length 5 over 2 keys); '
+    ctx.rule = ('(1) ALL operation histories up to length 4 (thorough: 5) over the 3-key universe {"a","ab","b"} (thorough: also 4 keys incl. the empty string) '
+                'and the full operation set of serde_json::Map (every public method and every path through the entry API, per key; removal flavours, '
+                'shift_insert at every index incl. out of bounds, append/extend/collect with duplicate keys, retain, sort_keys, iter_mut ..., and the pure observers), '
+                'enumerated depth-first in the harness and in the extracted model and compared by a position-sensitive checksum of every node\'s returned value and '
+                'forward iteration; in the reduced enumerations the non-final positions draw one representative per class of operations with literally the same state '
+                'transformer in the model (remove/remove_entry/OccupiedEntry::remove.., or_insert/or_insert_with, ...) while the final position draws from the full set; '
+                'thorough additionally runs the unreduced enumeration (full set at every position) for 3 keys, length 4; '
                 '(2) random histories of 8-60 operations over 3-12 keys (empty, multi-byte, prefix-related) with nested values, compared operation by operation, '
                 'plus final forward and backward iteration; (3) pairs of values: deep permutations, +0.0/-0.0, int-vs-float and other one-leaf near-misses, compared on ==, '
                 'on the exact Hasher call sequence and on DefaultHasher; (4) sort_all_objects on random nested values. '
                 'Direct checks on the implementation alone: state invariants after every operation (ascending keys by default, no duplicate, len = count, backward = reverse), '
                 'equal values hash equally, sort_all_objects sorts every depth and preserves ==. non-trivial = every enumerated node / every compared line')
-    jobs = []
     for cfg in ctx.cfgs:
-        jobs.append((cfg, K3, 4, '3keys-len4'))
-        if not quick:
-            jobs.append((cfg, K4, 4, '4keys-len4'))
-            jobs.append((cfg, K2, 5, '2keys-len5'))
-    # the configurations are independent: run their enumerations side by side
-    with ThreadPoolExecutor(max_workers=2 if quick else 3) as ex:
-        list(ex.map(lambda j: run_x(ctx, *j), jobs))
+        if quick:
+            run_x(ctx, cfg, K3, 4, '3keys-len4-reduced', reduced=True)
+        else:
+            run_x(ctx, cfg, K3, 4, '3keys-len4-full')
+            run_x(ctx, cfg, K3, 5, '3keys-len5-reduced', reduced=True)
+            run_x(ctx, cfg, K4, 4, '4keys-len4-reduced', reduced=True)
     for cfg in ctx.cfgs:
         L = letters(cfg)
         # methods that do not exist without preserve_order: one line each, both sides must say NA
@@ -523,7 +553,6 @@ def run_c17(ctx):
             ctx.count('%s:%s-lines' % (cfg, group[0].split(' ')[0] if group else '-'), len(group))
             for l in group[:2]:
                 ctx.sample({'cfg': cfg, 'case': l[:300]})
-        ctx.count('%s:eq-cases-equal' % cfg, 0)
 
 def extended_c17(ctx):
     """a tie broke (theorem / model build): widen the search"""
